@@ -16,7 +16,7 @@ CONSTANTS N,          \* number of targets
           Upper,      \* also enumerate the naming under which top-level names sort BEFORE hidden ones
           EmitMode,   \* "all" | "diff" (only cases with a model/reference disagreement) | "none"
           Siblings,   \* C25: also enumerate one gc_sibling label
-          Flaws,      \* subset of {"deps", "rev", "sibling"}: model the algorithms as they were BEFORE the recorded repairs
+          Flaws,      \* subset of {"deps", "depsedge", "rev", "sibling"}: model the algorithms as they were BEFORE the recorded repairs
           Shape,      \* "any" | "chain": only graphs with a chain through two hidden sub-targets of one rule
           MinHidden,  \* at least this many hidden sub-targets
           Focus,      \* "all" | "rev": only the revdeps queries without --hidden (the wide search for the FIFO flaw)
@@ -136,12 +136,15 @@ DepsLoop(t, ps, st, L, cur, hid) ==
   ELSE LET p == Head(ps)
            seen == st.done[p] < Inf
        IN
-       IF seen /\ ("deps" \in Flaws \/ L < 0 \/ st.done[p] <= cur) THEN DepsLoop(t, Tail(ps), st, L, cur, hid)
-       ELSE LET shown == hid \/ ~Hidden(p)
-                st1 == [done |-> [st.done EXCEPT ![p] = cur], out |-> IF shown THEN st.out \cup {p} ELSE st.out]
-                st2 == IF shown THEN DepsVisit(p, st1, L, cur + 1, hid)
-                       ELSE IF Fam(p) = Fam(t) THEN DepsVisit(p, st1, L, cur, hid)
-                       ELSE DepsVisit(p, st1, L, cur + 1, hid)
+       \* (second repair, 8449629) what is recorded and compared is the level p's own dependencies are expanded at:
+       \* one deeper, except below a hidden dependency of t's own family
+       LET shown == hid \/ ~Hidden(p)
+           next == IF ~shown /\ Fam(p) = Fam(t) THEN cur ELSE cur + 1
+           rec == IF "depsedge" \in Flaws THEN cur ELSE next       \* "depsedge": the first repair alone (level of the edge)
+       IN
+       IF seen /\ ("deps" \in Flaws \/ L < 0 \/ st.done[p] <= rec) THEN DepsLoop(t, Tail(ps), st, L, cur, hid)
+       ELSE LET st1 == [done |-> [st.done EXCEPT ![p] = rec], out |-> IF shown THEN st.out \cup {p} ELSE st.out]
+                st2 == DepsVisit(p, st1, L, next, hid)
             IN DepsLoop(t, Tail(ps), st2, L, cur, hid)
 AlgoDeps(s, hid, L) == DepsVisit(s, [done |-> [t \in Nodes |-> Inf], out |-> {}], L, 0, hid).out
 
